@@ -9,7 +9,7 @@ use crate::cer::*;
 use crate::rp;
 use crate::util::{self, Args, Sink};
 use coset::iana;
-use passkey_authenticator::{extensions::HmacSecretConfig, Authenticator, CredentialIdLength};
+use passkey_authenticator::{extensions::HmacSecretConfig, Authenticator, CredentialIdLength, Ctap2Api};
 use passkey_types::ctap2::extensions::{AuthenticatorPrfInputs, AuthenticatorPrfValues};
 use passkey_types::ctap2::{get_assertion, make_credential, Aaguid, StatusCode};
 use passkey_types::webauthn::{
@@ -92,7 +92,7 @@ impl Run {
             auth.store().snapshot(&s.dict)
         };
         self.client = Some(passkey_client::Client::new(auth).allows_insecure_localhost(cfg["localhost"].as_bool().unwrap_or(false)));
-        self.sh.lock().unwrap().log.push(json!({"ev": "Reset", "run": run, "cfg": cfg, "store": snap}));
+        self.sh.lock().unwrap().record(json!({"ev": "Reset", "run": run, "cfg": cfg, "store": snap}));
     }
 
     fn salt(&mut self, name: &str) -> [u8; 32] {
@@ -233,7 +233,7 @@ impl Run {
     }
 
     pub fn push(&self, v: Value) {
-        self.sh.lock().unwrap().log.push(v);
+        self.sh.lock().unwrap().record(v);
     }
 
     /// which relying party's SHA-256 the hash equals
@@ -279,7 +279,7 @@ impl Run {
         json!({"ok": false, "err": 0, "werr": "none", "flags": [], "ctr": {"hi": -1, "lo": 0}, "cred": "none", "user": "none", "rphash": "none",
                "sigkey": "none", "at": false, "ed": false, "wf": true, "attid": "none", "idlen": 0, "fresh": true,
                "cose": {"labels": [], "kty": 0, "alg": 0, "crv": 0, "point": false},
-               "stored": no_cred(), "keymatch": false, "fmt": "none",
+               "stored": no_cred(), "keymatch": false, "fmt": "none", "digest": "none",
                "prfEnabled": "absent", "prf1": {"sec": "absent", "salt": "absent"}, "prf2": {"sec": "absent", "salt": "absent"},
                "client": no_client(), "leaks": []})
     }
@@ -421,6 +421,54 @@ impl Run {
                 };
                 self.push(ev);
             }
+            ("trait", "mc") => {
+                let req = self.mc_request(&c["req"]);
+                let out = util::catch(|| drive(<Auth as Ctap2Api>::make_credential(client.authenticator_mut(), req), &sh));
+                self.client = Some(client);
+                let ev = match out {
+                    Err(m) => json!({"ev": "Crash", "d": {"what": m}}),
+                    Ok(Outcome::Hung) => json!({"ev": "Crash", "d": {"what": "hung"}}),
+                    Ok(Outcome::Cancelled(_)) => json!({"ev": "Cancel", "d": {"after": sh.lock().unwrap().counted}}),
+                    Ok(Outcome::Done(Ok(r))) => json!({"ev": "End", "d": self.judge_mc(&r)}),
+                    Ok(Outcome::Done(Err(s))) => json!({"ev": "End", "d": Self::err_end(u8::from(s))}),
+                };
+                self.push(ev);
+            }
+            ("trait", "ga") => {
+                let req = self.ga_request(&c["req"]);
+                let out = util::catch(|| drive(<Auth as Ctap2Api>::get_assertion(client.authenticator_mut(), req), &sh));
+                self.client = Some(client);
+                let ev = match out {
+                    Err(m) => json!({"ev": "Crash", "d": {"what": m}}),
+                    Ok(Outcome::Hung) => json!({"ev": "Crash", "d": {"what": "hung"}}),
+                    Ok(Outcome::Cancelled(_)) => json!({"ev": "Cancel", "d": {"after": sh.lock().unwrap().counted}}),
+                    Ok(Outcome::Done(Ok(r))) => json!({"ev": "End", "d": self.judge_ga(&r)}),
+                    Ok(Outcome::Done(Err(s))) => json!({"ev": "End", "d": Self::err_end(u8::from(s))}),
+                };
+                self.push(ev);
+            }
+            (_, "info") => {
+                let out = if api == "trait" {
+                    util::catch(|| drive(<Auth as Ctap2Api>::get_info(client.authenticator()), &sh))
+                } else {
+                    util::catch(|| drive(Authenticator::get_info(client.authenticator()), &sh))
+                };
+                self.client = Some(client);
+                let ev = match out {
+                    Err(m) => json!({"ev": "Crash", "d": {"what": m}}),
+                    Ok(Outcome::Hung) => json!({"ev": "Crash", "d": {"what": "hung"}}),
+                    Ok(Outcome::Cancelled(_)) => json!({"ev": "Cancel", "d": {"after": sh.lock().unwrap().counted}}),
+                    Ok(Outcome::Done(r)) => {
+                        let mut bytes = vec![];
+                        ciborium::ser::into_writer(&r, &mut bytes).unwrap();
+                        let mut d = Self::end_default();
+                        d["ok"] = json!(true);
+                        d["digest"] = json!(hex(&bytes));
+                        json!({"ev": "End", "d": d})
+                    }
+                };
+                self.push(ev);
+            }
             _ => {
                 self.client = Some(client);
                 crate::cerclient::ceremony(self, c);
@@ -456,23 +504,97 @@ pub fn private_matches(p: &Passkey, point: Option<&[u8]>) -> bool {
     p256::ecdsa::SigningKey::from(&sk).verifying_key().to_encoded_point(false).as_bytes() == point
 }
 
-/// `pkverif cer replay --in behaviours.ndjson --out trace.ndjson`
+/// `pkverif cer replay --in behaviours.ndjson --out trace.ndjson [--isolate 1]`
+///
+/// With --isolate the behaviours run in child processes of this binary: a child that dies (stack overflow, abort,
+/// resource limit) is data - the parent closes the interrupted ceremony with a Crash event and carries on with the
+/// next behaviour in a new child.
 pub fn replay(args: &Args) {
     let beh = util::read_ndjson(args.req("in"));
-    let mut out = Sink::create(args.req("out"));
     let seed = args.seed();
-    for (i, b) in beh.iter().enumerate() {
+    if args.get("isolate").is_some() {
+        return replay_isolated(args, &beh);
+    }
+    let from = args.num("from", 0) as usize;
+    let child = args.get("child").is_some();
+    let mut out = Sink::create(args.req("out"));
+    for (i, b) in beh.iter().enumerate().skip(from) {
         let mut run = Run::new(seed.wrapping_mul(1_000_003).wrapping_add(i as u64));
+        if child {
+            crate::cer::set_write_through(args.req("out"));
+        }
         run.reset(i as u64, &b["cfg"], &b["store"]);
         for c in b["cers"].as_array().unwrap() {
             run.ceremony(c);
         }
-        for e in run.take_log() {
-            out.emit(e);
+        if !child {
+            for e in run.take_log() {
+                out.emit(e);
+            }
         }
     }
     let n = out.finish();
-    println!("{}", json!({"behaviours": beh.len(), "events": n}));
+    if !child {
+        println!("{}", json!({"behaviours": beh.len(), "events": n}));
+    }
+}
+
+fn replay_isolated(args: &Args, beh: &[Value]) {
+    let exe = std::env::current_exe().unwrap();
+    let out_path = args.req("out").to_string();
+    let tmp = format!("{out_path}.child");
+    let mut out = Sink::create(&out_path);
+    let mut k = 0usize;
+    let mut crashes = 0u64;
+    while k < beh.len() {
+        let _ = std::fs::remove_file(&tmp);
+        let status = std::process::Command::new(&exe)
+            .args(["cer", "replay", "--in", args.req("in"), "--out", &tmp, "--child", "1", "--from", &k.to_string(), "--seed", &args.seed().to_string()])
+            .stdout(std::process::Stdio::null())
+            .stderr(std::process::Stdio::null())
+            .status()
+            .expect("spawn child");
+        let events: Vec<Value> = std::fs::read_to_string(&tmp)
+            .unwrap_or_default()
+            .lines()
+            .filter_map(|l| serde_json::from_str(l).ok())
+            .collect();
+        let runs = events.iter().filter(|e| e["ev"] == "Reset").count();
+        let mut last_snap = json!([]);
+        let mut open = false;
+        for e in &events {
+            match e["ev"].as_str().unwrap() {
+                "Reset" => last_snap = e["store"].clone(),
+                "Store" => last_snap = e["d"]["snap"].clone(),
+                "Begin" => open = true,
+                "Snap" => {
+                    open = false;
+                    last_snap = e["d"]["snap"].clone()
+                }
+                _ => {}
+            }
+            out.emit(e.clone());
+        }
+        if status.success() {
+            break;
+        }
+        // the child died inside behaviour k + runs - 1 (or before writing anything)
+        crashes += 1;
+        let what = format!("process died: {status}");
+        if runs == 0 {
+            out.emit(json!({"ev": "Reset", "run": k, "cfg": beh[k]["cfg"], "store": beh[k]["store"]}));
+            k += 1;
+            continue;
+        }
+        if open {
+            out.emit(json!({"ev": "Crash", "d": {"what": what}}));
+            out.emit(json!({"ev": "Snap", "d": {"snap": last_snap, "nnew": 0}}));
+        }
+        k += runs;
+    }
+    let _ = std::fs::remove_file(&tmp);
+    let n = out.finish();
+    println!("{}", json!({"behaviours": beh.len(), "events": n, "child_crashes": crashes}));
 }
 
 pub fn main(args: &Args) {
